@@ -106,17 +106,27 @@ theorem C09_library_never_panics :
   obtain ⟨l, hl, hsafe⟩ := allSafe_some C09_all_safe
   exact ⟨l, hl, fun p hp n σ orc site => safe_no_panic (hsafe p hp) n σ orc site⟩
 
-/-- The extraction found the scope it expects (at least the handlers and helpers named in
-the property's anchors are present among the non-trivial skeletons). -/
+/-- package part of a regenerated function name (`pkg.Func`, `pkg.(*T).Method`): package names
+are part of the import path, i.e. API; function, receiver and helper names are not consumed by
+the theorems below (round F, review finding 3). -/
+def pkgOf (n : String) : String := String.ofList (n.toList.takeWhile (· != '.'))
+
+/-- same elements with the same multiplicities -/
+def sameMultiset (a b : List (String × Bool)) : Bool :=
+  a.length == b.length && b.all fun x => (a.filter (· == x)).length == (b.filter (· == x)).length
+
+/-- The extraction found the scope it expects: every package whose handlers / helpers the
+property's anchors name has non-trivial skeletons. -/
 theorem C09_scope_present :
-    (["xmpp.unmarshalIQ", "xmpp.iterIQ", "stanza.UnmarshalError", "receipts.(*Handler).HandleMessage",
-      "history.(*Handler).HandleMessage", "commands.(Command).ExecuteIQ", "blocklist.(Handler).HandleIQ",
-      "carbons.(Handler).HandleMessage", "mux.forChildren", "roster.(*Iter).Next", "pubsub.(*Iter).Next",
-      "disco.(*ItemIter).Next", "paging.(*Iter).Next", "muc.(*config).UnmarshalXML",
-      "xmpp.handleInputStream"].all fun n =>
+    (["xmpp", "stanza", "receipts", "history", "commands", "blocklist", "carbons", "mux", "roster",
+      "pubsub", "disco", "paging", "muc"].all fun n =>
         match XmppModel.Generated.C09.skeletons with
-        | some l => l.any fun p => p.1 == n
+        | some l => l.any fun p => pkgOf p.1 == n
         | none => false) = true := by decide +kernel
+
+example : pkgOf "receipts.(*Handler).HandleMessage" = "receipts" := by decide
+example : sameMultiset [("a", true), ("b", false), ("a", true)] [("b", false), ("a", true), ("a", true)] = true := by decide
+example : sameMultiset [("a", true), ("b", false)] [("a", false), ("b", true)] = false := by decide
 
 /-! ## Serve makes progress -/
 
@@ -146,13 +156,17 @@ patterns, that locks are handed to a caller only by the two functions whose resu
 them, and that the two `Close` methods which release a lock they did not take do so by `defer`
 or with nothing but the "already closed" guard in front of the release. -/
 
+def isRootCloser (n : String) : Bool :=
+  "xmpp.(".toList.isPrefixOf n.toList && ").Close".toList.isSuffixOf n.toList
+
 def lockOk (f : String × String × Nat) : Bool :=
   match f.2.1 with
   | "paired-defer" | "paired-explicit" => true
+  -- only API names are consumed: the exported Session methods that hand the lock to the closer
+  -- they return, and methods called Close (io.Closer) of the root package
   | "handoff" => f.1 == "xmpp.(*Session).TokenWriter" || f.1 == "xmpp.(*Session).TokenReader"
-  | "release-defer" => f.1 == "xmpp.(*lockWriteCloser).Close" || f.1 == "xmpp.(*lockReadCloser).Close"
-  | "release-plain" =>
-    (f.1 == "xmpp.(*lockWriteCloser).Close" || f.1 == "xmpp.(*lockReadCloser).Close") && f.2.2 ≤ 1
+  | "release-defer" => isRootCloser f.1
+  | "release-plain" => isRootCloser f.1 && f.2.2 ≤ 1
   | _ => false
 
 def lockDisciplineOk : Option (List (String × String × Nat)) → Bool
@@ -166,6 +180,59 @@ theorem C09_lock_discipline : lockDisciplineOk XmppModel.Generated.C09.lockFacts
 
 example : lockOk ("xmpp.(*lockWriteCloser).Close", "release-plain", 2) = false := by decide
 example : lockOk ("xmpp.(*Session).Encode", "handoff", 0) = false := by decide
+
+/-! ## Round F: every response a function obtains is closed or handed on, on every path
+
+The other half of the `handshake` of `C09_root_serve_channel_waits_escape`: the serve goroutine
+waits until the party that took a response closes it.  Regenerated (`harness/c09/respfacts.go`):
+every call in scope whose result is an `xmlstream.TokenReadCloser`, with how the result is
+disposed of on every path from there to a return or to the end of the function - `defer`,
+`closed` (every path closes it or hands it on in its return statement), `handed-on` (stored:
+the holder's duty).  A path that returns with the response open (`violation:…`) wedges Serve
+for ever; findings 7, 11, 16 and the seeded C09-11 were of that kind and were found by the
+watchdog only.  No names consumed.  Not covered: responses behind iterators (`xmlstream.Iter`,
+the `Close` of the iterator types) and the holder's side of `handed-on`. -/
+
+def responseKindOk (k : String) : Bool := k == "defer" || k == "closed" || k == "handed-on"
+
+def responsesOk : Option (List (String × String)) → Bool
+  | some l => l.all (fun f => responseKindOk f.2) && l.any (fun f => f.2 == "defer") &&
+      l.any (fun f => f.2 == "closed")
+  | none => false
+
+theorem C09_responses_closed_on_every_path :
+    responsesOk XmppModel.Generated.C09.responseFacts = true := by
+  decide +kernel
+
+example : responsesOk (some [("a", "defer"), ("b", "closed"),
+    ("commands.(Command).ExecuteIQ", "violation:a return leaves the response open (line 72)")]) = false := by
+  decide
+
+/-! ## Round F: a channel is closed at most once
+
+`close` of a closed channel panics (four genuine panics of this check's history, the seeded
+C09-8) and is not an operation of the skeleton IR.  Every `close(ch)` in scope is regenerated
+with what makes it happen at most once (`harness/c09/closefacts.go`): inside a `sync.Once`, the
+only close of a local channel, or the close of an entry that the same block removes from its
+table.  Outside the root package no other close is accepted; the root package has one: the
+response slot (`iqResponder.Close`), which is only handed out behind the idempotent `errCloser`
+(sendResp) - reviewed, and exercised by the "answered twice" / "closed twice" scenarios.  Send
+on a closed channel is not covered (fuzzing only). -/
+
+def closeFactsOk : Option (List (String × String)) → Bool
+  | some l => l.all (fun f => f.2 == "once" || f.2 == "local" || f.2 == "removed-entry" ||
+        (f.1 == "xmpp" && f.2 == "bare")) &&
+      (l.filter fun f => f.2 == "bare").length ≤ 1 && l.any (fun f => f.2 == "once") &&
+      l.any (fun f => f.2 == "removed-entry")
+  | none => false
+
+theorem C09_channels_closed_at_most_once :
+    closeFactsOk XmppModel.Generated.C09.closeFacts = true := by
+  decide +kernel
+
+-- history's table entry closed without being removed (seeded C09-8), a second bare close in the root
+example : closeFactsOk (some [("xmpp", "bare"), ("history", "bare"), ("ibb", "once"), ("h", "removed-entry")]) = false := by decide
+example : closeFactsOk (some [("xmpp", "bare"), ("xmpp", "bare"), ("ibb", "once"), ("h", "removed-entry")]) = false := by decide
 
 /-! ## Round E: every mutex of the handler packages is released on every path
 
@@ -205,11 +272,11 @@ error (the goroutine then leaks, Serve goes on); disco's handler does not wait f
 producer; history's query goroutine is not waited for; muc's join / leave wait in a select
 that also watches the caller's context. -/
 theorem C09_goroutines_reviewed :
-    XmppModel.Generated.C09.goroutines = some [
-      ("xmpp.setDeadline", false), ("xmpp.setWriteDeadline", false),
-      ("blocklist.(Handler).HandleIQ", true), ("disco.(*discoHandler).HandleIQ", false),
-      ("history.(*Handler).FetchIQ", false), ("muc.(*Channel).LeavePresence", true),
-      ("muc.(*Channel).JoinPresence", true)] := by decide +kernel
+    (match XmppModel.Generated.C09.goroutines with
+      | some l => sameMultiset (l.map fun g => (pkgOf g.1, g.2))
+          [("xmpp", false), ("xmpp", false), ("blocklist", true), ("disco", false), ("history", false),
+           ("muc", true), ("muc", true)]
+      | none => false) = true := by decide +kernel
 
 /-! ## Iterators that turn pages
 
@@ -233,19 +300,25 @@ idioms.  Index / slice operations that the range analysis proves in range on eve
 (`Generated.C09.derivedSites`, round D) are not part of this list: they are re-proved, not
 reviewed, so renaming their operands or moving them into a helper changes nothing here. -/
 theorem C09_accepted_sizes_reviewed :
-    XmppModel.Generated.C09.acceptedSizes = [
-  ("xmpp.(*stanzaEncoder).EncodeToken", "make", "make([]xml.Attr, 0, len(tok.Attr) + 2)"),
-  ("xmpp.(*stanzaEncoder).EncodeToken", "make", "make([]xml.Attr, 0, len(tok.Attr))"),
+    XmppModel.Generated.C09.acceptedSizes.filter (fun s => s.2.1 != "make") = [
   ("disco.walkItem", "index(allow)", "items[itemIdx]"),
   ("disco.walkItem", "slice(allow)", "items[last + 1:]"),
   ("disco.appendItems", "index(allow)", "items[itemIdx]"),
-  ("ibb.newConn", "make", "make([]byte, 0, blockSize)"),
   ("ibb.handlePayload", "make(allow)", "make([]byte, base64.StdEncoding.DecodedLen(len(p.Data)))"),
   ("ibb.handlePayload", "dstsize", "base64.StdEncoding.Decode(data, p.Data)"),
   ("ibb.handlePayload", "slice(allow)", "data[:n]"),
   ("attr.randomID", "make(allow)", "make([]byte, (n / 2) + (n & 1))"),
-  ("attr.randomID", "slice(allow)", "fmt.Sprintf(\"%x\", b)[:n]"),
-  ("marshal.(*elementWriter).EncodeToken", "make", "make([]xml.Attr, 0, len(ew.start.Attr) + len(tok.Attr))")] := by decide +kernel
+  ("attr.randomID", "slice(allow)", "fmt.Sprintf(\"%x\", b)[:n]")] := by decide +kernel
+
+/-- Round F: `make` sites accepted by the idiom "every size argument is syntactically
+non-negative" (constants, len / cap, unsigned values, sums and products of such: `nonNegative`
+in translate.go, decided on every run) carry no reviewed judgement about their text, so they
+are no longer pinned (a new `make([]xml.Attr, 0, len(start.Attr))` in bookmarks alarmed, a
+rename of `tok` would have); they stay listed in the facts and the evidence, and there must be
+some (the extractor still sees them). -/
+theorem C09_make_sites_found :
+    (XmppModel.Generated.C09.acceptedSizes.filter (fun s => s.2.1 == "make")).isEmpty = false := by
+  decide +kernel
 
 /-! ## Handler locks and the transport; request contexts
 
@@ -263,11 +336,10 @@ the session by negotiateSession / SetCloseDeadline, stored per expectation by ib
 A request goroutine whose context outlives its caller stays registered for its id: a late reply
 is handed to it and never closed (Serve waits for ever). -/
 theorem C09_cancels_reviewed :
-    XmppModel.Generated.C09.cancels = [("xmpp.setDeadline", false), ("xmpp.setWriteDeadline", false),
-      ("xmpp.negotiateSession", false), ("xmpp.(*Session).SetCloseDeadline", false),
-      ("xmpp.(*Session).sendResp", true), ("ibb.(*stanzaWriter).Write", true), ("ibb.(*Conn).Close", true),
-      ("ibb.(*Listener).Expect", false), ("muc.(*Channel).LeavePresence", true),
-      ("muc.(*Channel).JoinPresence", true)] := by decide +kernel
+    sameMultiset (XmppModel.Generated.C09.cancels.map fun g => (pkgOf g.1, g.2))
+      [("xmpp", false), ("xmpp", false), ("xmpp", false), ("xmpp", false), ("xmpp", true),
+       ("ibb", true), ("ibb", true), ("ibb", false), ("muc", true), ("muc", true)] = true := by
+  decide +kernel
 
 /-! ## A pending request, the serve goroutine and the handlers' locks
 
